@@ -55,9 +55,18 @@ func zzSymbolicPods(c *fakeapi.Client, nNodes, maxPods int, rich bool) {
 			rsName, hash = zzOldRS, zzHashOld
 		}
 		p := zzPod(l, nodeName, rsName, hash, binding, zzPhase(l+".phase"), !nondet.Thorough() || nondet.Bool(l+".ready"), nondet.Base().Add(-60*1e9))
-		if rich && nondet.Bool(l+".terminating") {
-			t := metav1.NewTime(nondet.Base())
-			p.DeletionTimestamp = &t
+		if rich {
+			// terminating: just now, or for longer than its grace period (a pod the kubelet of an
+			// unreachable node never confirms: it still is the pod of its node)
+			switch nondet.String(l+".terminating", "no", "just-now", "overdue") {
+			case "just-now":
+				t := metav1.NewTime(nondet.Base())
+				p.DeletionTimestamp = &t
+			case "overdue":
+				t := metav1.NewTime(nondet.Base().Add(-120 * 1e9))
+				g := int64(30)
+				p.DeletionTimestamp, p.DeletionGracePeriodSeconds = &t, &g
+			}
 		}
 		c.Pods = append(c.Pods, p)
 	}
